@@ -162,7 +162,7 @@ func checkPanicFree(c *Check, p *Program, rule string, fn *ssa.Function, pl *Pan
 				nIdx++
 				k := key("index")
 				file, line := posFileLine(p, in.Pos())
-				if in.Pos().IsValid() && len(pl.BoundsPanicsAt(file, line)) == 0 {
+				if in.Pos().IsValid() && len(pl.IndexPanicsAt(file, line)) == 0 {
 					nE3++
 					c.OK(rule, k, pos, "compiler prove pass eliminated the bounds check (no bounds-panic call on this line)")
 					continue
@@ -180,6 +180,8 @@ func checkPanicFree(c *Check, p *Program, rule string, fn *ssa.Function, pl *Pan
 					ok, why = true, "varargs array with constant index"
 				} else if rangeIndexOK(x, base, idx) {
 					ok, why = true, "range loop index over the same slice"
+				} else if guardedIndexOK(base, idx, b) {
+					ok, why = true, "0 <= index (counts up from 0) and the guard index < len of the same slice dominates"
 				}
 				if !ok && d.data != nil && d.linIndex(base, idx, b) {
 					ok, why = true, "linear facts (guards, sub-slice geometry, summary H) imply 0 <= index < length"
@@ -195,7 +197,7 @@ func checkPanicFree(c *Check, p *Program, rule string, fn *ssa.Function, pl *Pan
 				nIdx++
 				k := key("slice")
 				file, line := posFileLine(p, x.Pos())
-				e3 := x.Pos().IsValid() && len(pl.BoundsPanicsAt(file, line)) == 0
+				e3 := x.Pos().IsValid() && len(pl.SlicePanicsAt(file, line)) == 0
 				off, isIn := d.base(x.X)
 				if x.Max != nil && isIn {
 					c.Fail(ruleC, k+" three-index slice of the input", pos, "capacity of the input is manipulated")
@@ -1065,4 +1067,37 @@ func checkNoAlias(c *Check, p *Program, rule string, fn *ssa.Function, inSet map
 	if n == 0 {
 		c.OK(rule, name+" keeps no reference into its input", p.Pos(fn.Pos()), "no store, return, send or capture of a slice of the input")
 	}
+}
+
+// guardedIndexOK: base[idx] behind the fact idx < len(base) with idx known
+// non-negative (unsigned, or a loop counter that starts at a non-negative
+// constant and only grows).
+func guardedIndexOK(base, idx ssa.Value, b *ssa.BasicBlock) bool {
+	nonNegIdx := nonNeg(idx)
+	if ph, ok := idx.(*ssa.Phi); ok && !nonNegIdx {
+		nonNegIdx = true
+		for _, e := range ph.Edges {
+			if k, isK := constInt(e); isK && k >= 0 {
+				continue
+			}
+			if bo, isB := e.(*ssa.BinOp); isB && bo.Op == token.ADD && bo.X == ssa.Value(ph) {
+				if k, isK := constInt(bo.Y); isK && k >= 0 {
+					continue
+				}
+			}
+			nonNegIdx = false
+		}
+	}
+	if !nonNegIdx {
+		return false
+	}
+	for _, f := range factsAt(b) {
+		if f.Op != token.LSS || f.X != idx {
+			continue
+		}
+		if call, ok := f.Y.(*ssa.Call); ok && builtinName(call) == "len" && call.Common().Args[0] == base {
+			return true
+		}
+	}
+	return false
 }
